@@ -22,6 +22,10 @@ CLAIMED = {
          "IQR operations are ASSUMED contracts over an abstract interval view; stream positions below 2^60; batches arrive in stream order (adjacency precondition)"),
  "C08": ("4 C08", "Gorilla codec of the metrics store: the real value encoder and decoder are proved inverse for every float64 bit pattern and every window state (token-stream contracts, clz/ctz loops with inductive invariants, a round-trip lemma that re-establishes the encoder/decoder coupling invariant = the induction step over the samples of a series), likewise the delta-of-delta timestamp encoder/decoder for all int32 deltas; reading a field with another width than it was written with is a named obligation. The bit I/O layer is an assumed token-stream view; series identity (TSID hashing, tags), files and rotation are not decided.",
          "bitWriter/bitReader ASSUMED to implement the ghost token stream (a field written with writeBits(v,n) is read back by readBits(n) / n readBit calls); modifies-frames of the verified codec functions are not themselves checked; NaN payloads unconstrained; first-sample path (14-bit delta) and finish marker not covered; dod == 2^32-1 excluded (collides with the end marker)"),
+ "C09": ("4 C09", "Aggregation kernels of the metrics query path only: for every number of member series the min (bottomk) / max (topk) aggregate of a group is proved to be an element of the member values that bounds all of them (loop invariants with an existential witness), group -> 1, and the metrics time-range predicates equal the interval predicates. Label matching, grouping keys, sum/avg folds, vector arithmetic and layout independence are not decided.",
+         "NaN members excluded; sum/avg (left folds) and quantile not specified; selector / matcher semantics (strings, regex) not covered"),
+ "C10": ("4 C10", "Thin: in all three WAL iterators a block is decoded only behind the CRC gate (the decoder call is dominated by crc32(block) == stored checksum, CRC as an uninterpreted function of the bytes read), the framing arithmetic cannot wrap (blockSize >= 4 before the subtraction), and the writer frames a block as size | crc32(payload) | payload. The crash-prefix and truncation-length parts of the property are about file-system histories and are not decided.",
+         "binary.Read / io.ReadFull / zstd / json are external (arbitrary results); recovery loop's treatment of errors as end-of-log not covered"),
  "C13": ("4 C13", "Segment-selection guard: every rotated or open segment handed to a search, and every column name collected for it, is proved (path-condition contracts at the insertion sites, loop invariant for the index-name match) to belong to the requesting organisation, to a requested index and to overlap the query time range. Index-name expansion (wildcards, aliases), metrics queries and deletion are not decided.",
          "map iteration is abstracted (arbitrary order/elements); ExpandAndReturnIndexNames, alias maps and deletion not covered"),
  "C14": ("4 C14", "Victim-selection guard of the time-based retention pass: a log or metrics segment is put on the deletion list only if its newest event is at or before the horizon (no arithmetic overflow in the second->millisecond conversion) and only entries of the requesting organisation are considered. The converse direction (every expired segment is deleted), interruption/repetition, files and blob store are not decided.",
@@ -45,7 +49,7 @@ NOT_APPLICABLE = {
  "C17": "termination, PEG-generated parsers and goroutine life-cycle under concurrency; no contract within reach carries the property",
 }
 
-PENDING = "contracts not built yet in this session (see DESIGN.md section 4 for the plan)"
+PENDING = "contracts not built (see DESIGN.md sections 4 and 10)"
 
 def main():
     props = [json.loads(l)["id"] for l in open("/verif/properties.jsonl")]
